@@ -601,7 +601,10 @@ func callBody(fn *ssa.Function, args []value, free []value) value {
 		}
 		panic(unsupported{"external function " + fn.String()})
 	}
-	if fn.Pkg != nil && !interpPkgs[fn.Pkg.Pkg.Path()] {
+	if onceHelper(fn) {
+		// sync.OnceFunc / OnceValue / OnceValues and their closures are thin wrappers around
+		// sync.Once (modelled): interpret their bodies
+	} else if fn.Pkg != nil && !interpPkgs[fn.Pkg.Pkg.Path()] {
 		if r, ok := nativeCall(fn, args); ok {
 			return r
 		}
@@ -622,6 +625,22 @@ func callBody(fn *ssa.Function, args []value, free []value) value {
 	rs.curInstr = saved
 	rs.depth--
 	return r
+}
+
+func onceHelper(fn *ssa.Function) bool {
+	for f := fn; f != nil; f = f.Parent() {
+		n := f.String()
+		if strings.HasPrefix(n, "sync.OnceValue") || strings.HasPrefix(n, "sync.OnceFunc") {
+			return f.Blocks != nil
+		}
+		if o := f.Origin(); o != nil {
+			n = o.String()
+			if strings.HasPrefix(n, "sync.OnceValue") || strings.HasPrefix(n, "sync.OnceFunc") {
+				return f.Blocks != nil
+			}
+		}
+	}
+	return false
 }
 
 type unwindFail struct{ msg string }
@@ -1506,6 +1525,8 @@ func doBuiltin(fr *frame, f *ssa.Builtin, c *ssa.CallCommon, args []value) value
 		}
 		ch.closed = true
 		return nil
+	case "recover":
+		return iface{} // no panic is in flight: engine-level panics end the path
 	case "print", "println":
 		rs.outputs = append(rs.outputs, "builtin "+f.Name())
 		return nil
